@@ -10,11 +10,6 @@ CLAIMED = {}
 
 # properties never claimed, with the reason (DESIGN.md section 6)
 NA = {
- "C06": "Soundness/completeness of a DFS over all graphs is a property of the algorithm's data flow across recursion; the only static rule would be a frozen template of today's three-colour code, which would also fire on correct rewrites.",
- "C25": "GC safety is a closure property of a computed set over arbitrary graphs; no path-shape clause is both necessary and non-template.",
- "C26": "Fidelity of XML / go-test result parsing depends on input data and encoding/xml run-time behaviour; nothing structural is a necessary condition.",
- "C27": "Commutativity/idempotence of pointwise max is an algebraic law over values; deciding it needs abstract execution over orderings, not a shape rule.",
- "C38": "Meaning preservation of a third-party formatter against a second parser is a translation-validation question over programs, outside static analysis of this code.",
 }
 PENDING = "static check for this property is designed (DESIGN.md section 5) but not yet built and validated both ways; not claimed until it is"
 
